@@ -600,6 +600,33 @@ pub fn main(args: &[String]) {
             }
         }
     }
+    // mismatched tuples: patch infos selected on the font, applied to a copy of it whose mapping table is cut short (a stale
+    // or damaged copy with the same compatibility id): the entry's applied bit may lie beyond the table - an error or a font
+    let mut mismatched = 0u64;
+    {
+        let font = FontRef::new(&base.bytes).unwrap();
+        let decoder = FaultyDecoder { fail_at: 0, calls: Cell::new(0), kind: 0 };
+        for (i, gp) in gps.iter().enumerate() {
+            let src = gp["src"].as_str().unwrap();
+            let Ok(info) = patch_info(&font, &base.abs, src, gp["entry"].as_u64().unwrap() as usize) else { continue };
+            let tag = Tag::new(if src == "ift" { b"IFT " } else { b"IFTX" });
+            let Some(table) = font.table_data(tag).map(|d| d.as_bytes().to_vec()) else { continue };
+            for cut in 1..table.len().min(160) {
+                let mut b = write_fonts::FontBuilder::new();
+                b.add_raw(tag, table[..table.len() - cut].to_vec());
+                b.copy_missing_tables(font.clone());
+                let short = b.build();
+                let Ok(target) = FontRef::new(&short) else { continue };
+                mismatched += 1;
+                let r = guarded(|| target.apply_glyph_keyed_patches(std::iter::once((&info, gk_bytes[i].as_slice())), &decoder).map(|b| b.len()).map_err(|e| format!("{e}")));
+                if let Err(p) = r {
+                    rep.violation(&format!("applying glyph keyed patch {} to a copy of the font whose {tag} table is {cut} bytes shorter panicked: {p}", i + 1), json!({"kind": "mismatched-tuple", "patch": i + 1, "cut": cut}));
+                    break;
+                }
+            }
+        }
+    }
+    rep.add("mismatched_tuples", mismatched);
     rep.add("hostile_patches", hostile);
     rep.evaluations = done;
     rep.traces = done;
